@@ -256,7 +256,103 @@ Section Main.
     - injection Es as Es _. apply (f_equal q_sending) in Es. cbn in Es. congruence.
     - unfold end_query in Es. injection Es as Es _. apply (f_equal q_ended) in Es. cbn in Es. congruence.
   Qed.
+
+  (* ---- the requeue array is always flushed when a read ends ---- *)
+  Lemma reply_keeps_not_sending q servers on_tcp same r ok q' outs :
+    q_sending q = false -> step cfg q (IReply servers on_tcp same r) = (ok, q', outs) -> q_sending q' = false.
+  Proof.
+    intros Hs E. unfold step in E. destruct (q_ended q) eqn:Ee.
+    - injection E as _ <- _. exact Hs.
+    - rewrite Hs in E.
+      destruct (cfg_strict cfg && negb (same && match q_conn q with Some c => Bool.eqb c on_tcp | None => false end)).
+      + injection E as _ <- _. exact Hs.
+      + destruct (do_reply cfg servers q on_tcp r) as [q1 o1] eqn:Ed. injection E as _ <- _.
+        unfold do_reply, requeue_query, append_requeue, end_query, set_queued, set_conn, set_sending in Ed.
+        cbv zeta in Ed.
+        repeat match type of Ed with
+          | (if ?b then _ else _) = _ => destruct b
+          | (match ?x with Some _ => _ | None => _ end) = _ => destruct x
+          end; injection Ed as <- _; cbn; try reflexivity; exact Hs.
+  Qed.
+
+  (* the walk keeps the invariant; unless it re-queued the query through the connection
+     error, the query is not inside ares_send_query afterwards *)
+  Lemma read_walk_inv servers on_tcp this_conn (Hs : 0 <= servers <= cfg_smax cfg) items : forall q tx q' outs e,
+    Inv q tx -> q_sending q = false ->
+    read_walk cfg servers on_tcp this_conn q items = (q', outs, e) ->
+    Inv q' (tx + count_tx outs) /\ (q_sending q' = true -> q_queued q' = O).
+  Proof.
+    induction items as [|it rest IH]; intros q tx q' outs e H Hsd E; cbn [read_walk] in E.
+    - injection E as <- <- _. cbn. rewrite Z.add_0_r. split; [exact H|]. intros F. congruence.
+    - destruct it as [r|].
+      + destruct (step cfg q (IReply servers on_tcp this_conn r)) as [[ok q1] o1] eqn:Es.
+        destruct (read_walk cfg servers on_tcp this_conn q1 rest) as [[q2 o2] e2] eqn:Ew.
+        injection E as <- <- _.
+        destruct (step_good q tx (IReply servers on_tcp this_conn r) ok q1 o1 H Hs Es) as [H1 _].
+        pose proof (reply_keeps_not_sending q servers on_tcp this_conn r ok q1 o1 Hsd Es) as Hsd1.
+        rewrite count_tx_app, Z.add_assoc. eapply IH; eauto.
+      + destruct (this_conn && match q_conn q with Some c => Bool.eqb c on_tcp | None => false end).
+        * destruct (step cfg q (IConnClosed servers ARES_EBADRESP)) as [[ok q1] o1] eqn:Es.
+          injection E as <- <- _.
+          destruct (step_good q tx (IConnClosed servers ARES_EBADRESP) ok q1 o1 H Hs Es) as [H1 _]. split; [exact H1|].
+          unfold Retry_inv.Inv in H1. destruct H1 as (_ & _ & _ & _ & _ & _ & H7 & _). exact H7.
+        * injection E as <- <- _. cbn. rewrite Z.add_0_r. split; [exact H|]. congruence.
+  Qed.
+
+  (* C06: whatever the read contained and whatever happened to the connection, when
+     read_answers returns the query is not left in the (destroyed) requeue array: it has been
+     handed to ares_send_query, or completed, or is still outstanding on a connection *)
+  Theorem read_batch_settles servers on_tcp this_conn q tx items q' outs :
+    0 <= servers <= cfg_smax cfg ->
+    Inv q tx -> q_sending q = false ->
+    read_batch cfg true servers on_tcp this_conn q items = (q', outs) ->
+    Inv q' (tx + count_tx outs) /\ settled q'.
+  Proof.
+    intros Hs H Hsd E. unfold read_batch in E.
+    destruct (read_walk cfg servers on_tcp this_conn q items) as [[q1 o1] e] eqn:Ew.
+    injection E as <- <-.
+    destruct (read_walk_inv servers on_tcp this_conn Hs items q tx q1 o1 e H Hsd Ew) as [H1 Hq1].
+    unfold read_flush. rewrite andb_false_r.
+    destruct (q_queued q1) as [|n] eqn:Eq.
+    - split; [exact H1|]. split; [exact Eq|].
+      unfold Retry_inv.Inv in H1. destruct H1 as (_ & _ & _ & _ & _ & _ & _ & _ & _ & H10 & _).
+      destruct (q_ended q1) eqn:Ee; [left; discriminate|]. right.
+      destruct (H10 eq_refl) as [_ Hn]. destruct (q_conn q1) eqn:Ec; [right; discriminate|].
+      destruct (Hn eq_refl) as [_ [Hsnd|Hqq]]; [left; exact Hsnd | congruence].
+    - destruct (step cfg q1 IFlush) as [[ok q2] o2] eqn:Es.
+      assert (q_sending q1 = false) as Hsd1.
+      { destruct (q_sending q1) eqn:F; [|reflexivity]. specialize (Hq1 eq_refl). congruence. }
+      destruct (step_good q1 _ IFlush ok q2 o2 H1 I Es) as [H2 _].
+      assert (o2 = []) as ->.
+      { unfold step in Es. rewrite Eq, Hsd1 in Es. destruct (q_ended q1); injection Es as _ _ <-; reflexivity. }
+      cbn in H2. rewrite Z.add_0_r in H2. split; [exact H2|].
+      assert (n = O) as ->.
+      { unfold Retry_inv.Inv in H1. destruct H1 as (_ & _ & _ & _ & _ & _ & _ & H8 & _). lia. }
+      unfold step in Es. rewrite Eq, Hsd1 in Es.
+      destruct (q_ended q1) eqn:Ee; injection Es as _ <- ; unfold settled, set_queued, set_sending; cbn.
+      + split; [reflexivity|]. left. rewrite Ee. discriminate.
+      + split; [reflexivity|]. right. left. reflexivity.
+  Qed.
 End Main.
+
+(* the variant that skips the flush on the error path: a query detached by SERVFAIL and followed,
+   in the same read, by a message that does not parse is orphaned - no connection, no timer, not
+   being sent, never completed *)
+Theorem read_batch_without_flush_refuted :
+  exists cfg q items q' outs,
+    cfg_strict cfg = true /\ q_conn q = Some false /\ q_ended q = None /\
+    read_batch cfg false 1 false true q items = (q', outs) /\ orphaned q' /\ q_queued q' = O /\
+    (* while the real code re-sends it *)
+    settled (fst (read_batch cfg true 1 false true q items)).
+Proof.
+  exists (Config 3 1 false false true).
+  exists (fst (run (Config 3 1 false false true) (q_init false true false) [ISend 1 (SoWriteOk false)])).
+  exists [BReply (RkErr ARES_ESERVFAIL); BMalformed].
+  eexists. eexists. split; [reflexivity|]. split; [reflexivity|]. split; [reflexivity|].
+  split; [vm_compute; reflexivity|].
+  split; [repeat split|]. split; [reflexivity|].
+  vm_compute. split; [reflexivity|]. right. left. reflexivity.
+Qed.
 
 (* ---- the pinned code (replies matched by id and question only): NOT bounded ---- *)
 Definition pinned_cfg : config := Config 1 1 false false false.
